@@ -647,7 +647,9 @@ func (ro *Roster) GenerateBigNaryTree(N, nodes int) *Tree {
 func (ro *Roster) NewRosterWithRoot(root *network.ServerIdentity) *Roster {
 	list := make([]*network.ServerIdentity, len(ro.List))
 	copy(list, ro.List)
-	rootIndex, _ := ro.Search(root.ID)
+	// by the identifier of the root's key: the (deprecated) ID field may be
+	// missing (struct literals, rosters read from TOML) or foreign
+	rootIndex, _ := ro.searchByKey(root.GetID())
 	if rootIndex < 0 {
 		return nil
 	}
@@ -671,7 +673,7 @@ func (ro *Roster) GenerateNaryTreeWithRoot(N int, root *network.ServerIdentity) 
 	// root == nil.
 	rootIndex := 0
 	if root != nil {
-		rootIndex, _ = ro.Search(root.ID)
+		rootIndex, _ = ro.searchByKey(root.GetID())
 		if rootIndex < 0 {
 			log.Lvl2("Asked for non-existing root:", root, ro.List)
 			return nil
@@ -850,7 +852,7 @@ func (ro *Roster) Equal(other *Roster) (bool, error) {
 func (ro *Roster) Concat(sis ...*network.ServerIdentity) *Roster {
 	tmpRoster := NewRoster(ro.List)
 	for _, si := range sis {
-		if i, _ := tmpRoster.Search(si.ID); i < 0 {
+		if i, _ := tmpRoster.searchByKey(si.GetID()); i < 0 {
 			tmpRoster.List = append(tmpRoster.List, si)
 		}
 	}
